@@ -52,6 +52,11 @@ def gen_inputs(key, r):
         if base == 'normalize' and not np.any(Wm):
             Wm[0, 1] = 1.
         return d
+    if base == 'threshold_proportional':
+        Wm = r.choice([0., 0., .5, 1., 1., 2., 3.], size=(n, n))
+        if r.random_sample() < .5:
+            Wm = np.triu(Wm, 1) + np.triu(Wm, 1).T
+        return dict(W=Wm, p=float(r.choice([0., .1, .25, 1 / 3, .5, .7, 1.])), copy=bool(r.randint(2)))
     if base == 'pick_four_unique_nodes_quickly':
         return dict(n=int(r.randint(4, 10)), seed=Scripted((), fallback_seed=int(r.randint(1 << 30)), max_draws=2000))
     if base == 'distance_bin':
